@@ -90,7 +90,7 @@ func checkC02(c *Ctx) {
 		"error identically (*zerr.Signal Continue -> next pass, Break -> return nil, anything else returned unchanged) and no other function inspects those signal kinds, so a signal reaches exactly the innermost loop; " +
 		"(C02.branch) every condition is asserted *Bool (comma-ok, error otherwise), each branch block is guarded by its own condition's true edge, is followed by a return, and later conditions are evaluated only on the false edges of earlier ones; " +
 		"(C02.dictorder) the dictionary pass walks the key-order list and insert / overwrite / 移除 keep that list in insertion order (same rules as C12.sync); (C02.while) the condition is evaluated on every cycle before the body; (C02.iter) the list pass binds index+1; (C02.last) a block's fall-off value is the last statement's value. " +
-		"Also: on the not-a-boolean edge of every condition assertion the statement ends with an error and evaluates nothing further (…:rejects). After a failing loop body only the continue-signal edge starts the next pass; evalProgram / evalExecBlock / evalStmtBlock return the inner evaluator's value unchanged on success; a copied dictionary walks keyOrder (C02.copyorder). NOT decided: termination, what a particular program displays."
+		"Also: on the not-a-boolean edge of every condition assertion the statement ends with an error and evaluates nothing further (…:rejects). After a failing loop body only the continue-signal edge starts the next pass; evalProgram / evalExecBlock / evalStmtBlock return the inner evaluator's value unchanged on success; a copied dictionary walks keyOrder (C02.copyorder). NOT decided: termination, what a particular program displays. (…:tested-first) after a loop body returned without error nothing of the program is evaluated before the return slot is tested; (C02.nesting = C03.indent) which 如果 a 再如/否则 line belongs to is decided by its indentation."
 	R.Assumptions = []string{"vm.GetReturnValue reads the return slot of the current call frame (pkg/runtime/vm.go)", "Go's range over a slice visits elements in index order"}
 	u := c.Core()
 	u.buildSSA()
@@ -124,6 +124,29 @@ func checkC02(c *Ctx) {
 				R.viol("C02.retprop", key, u.pos(in.Pos()), "after the block returned without error the next loop pass can start without testing the return slot (输出 inside the loop body would not end the enclosing body)")
 				continue
 			}
+			// … and nothing of the program is evaluated in between (the loop condition, the next element's bindings): 输出
+			// ends the body immediately, before anything else can have an effect or raise an error
+			evaluates := func(x ssa.Instruction) bool {
+				cx, isCall := x.(*ssa.Call)
+				if !isCall || x == in {
+					return false
+				}
+				callee := cx.Call.StaticCallee()
+				if callee == nil {
+					// a call through a function value (block closure)
+					_, isBuiltin := cx.Call.Value.(*ssa.Builtin)
+					return !cx.Call.IsInvoke() && !isBuiltin
+				}
+				if callee.Pkg == nil || callee.Pkg != f.Pkg || len(callee.Params) == 0 {
+					return false
+				}
+				return namedTypeIs(callee.Params[0].Type(), "pkg/runtime", "VM") && callee.Signature.Recv() == nil
+			}
+			if w2 := reachableAvoiding(start, startIdx, evaluates, isRV); w2 != nil {
+				R.viol("C02.retprop", key+":tested-first", u.pos(in.Pos()), "after the block returned without error another part of the program is evaluated before the return slot is tested: after 输出 the loop condition (or the next pass's preparation) still runs - its effects happen and its errors replace the result")
+			} else {
+				R.hold("C02.retprop", key+":tested-first", u.pos(in.Pos()), "the return slot is tested before anything else is evaluated")
+			}
 			// the test's non-nil edge leaves the loop
 			ok2 := false
 			for _, t := range nilTests(f) {
@@ -145,6 +168,9 @@ func checkC02(c *Ctx) {
 		}
 	}
 	R.min("C02.retprop", 4)
+
+	// which branch a 再如 / 否则 line belongs to is decided by indentation (rules of C03.indent)
+	borrowRule(c, "C03", "C03.indent", "C02.nesting")
 
 	// ---- C02.signals
 	sigConsts := constsWithPrefix(u.Pkgs["pkg/error"], "SigType")
